@@ -29,6 +29,7 @@ set t6 to transform set x to 'Q' + x set matchNumber to 7 return x end
 set t7 to transform return seen + '|' + x + '|' + matchNumber end
 set t8 to transform return '' + startOffset + '-' + endOffset + '/' + totalMatches + ':' + lineNumber + ',' + columnNumber + '=' + value + '@' + filename end
 set t9 to transform set i to 0 loop if i >= matchLength then break end if i == 1 then return 'R' + i end set i to i + 1 end return 'E' + i end
+set t10 to transform if matchNumber == 1 then set x to 'N' end if matchLength > 5 then set startOffset to 'S' end return x + '.' + startOffset end
 set pcap to pattern (any = x)
 set pcap2 to pattern ('a' = x) or (any = y)
 `
@@ -80,6 +81,13 @@ func c05Items() []withItem {
 		{"t5", func(m engine.Match, _ map[string]string, _ int) string { return m.Value + "!" }},
 		{"t6", func(_ engine.Match, v map[string]string, _ int) string { return "Q" + v["x"] }},
 		{"t7", func(m engine.Match, v map[string]string, _ int) string { return "|" + v["x"] + "|" + strconv.Itoa(m.MatchNumber) }},
+		{"t10", func(m engine.Match, v map[string]string, _ int) string {
+			x := v["x"]
+			if m.MatchNumber == 1 {
+				x = "N" // assigned on this path only: the other matches read the capture
+			}
+			return x + "." + strconv.Itoa(m.Offset.Start)
+		}},
 		{"t9", func(m engine.Match, _ map[string]string, _ int) string {
 			if len(m.Value) >= 2 {
 				return "R1" // the `return` inside the loop ends the transform
@@ -103,7 +111,7 @@ func init() {
 	register(&Check{
 		ID:    "C05",
 		Level: "exploration",
-		Rule: "every `with` list of length 1..k over 22 items (2 string literals, captures x y, the 8 built-ins, an undefined name, 9 transforms (one returning from inside a loop) reading and ASSIGNING match / matchNumber / captures / locals and reading every built-in) x 14 bodies (two with the captures declared inside `set .. to pattern` definitions, two capturing digits) with 0-2 captures whose values differ between matches x every text over {a,b,\\n} up to the length bound and over {0,7} up to length 3; " +
+		Rule: "every `with` list of length 1..k over 23 items (2 string literals, captures x y, the 8 built-ins, an undefined name, 10 transforms (one returning from inside a loop, one assigning a capture and a built-in on some paths only) reading and ASSIGNING match / matchNumber / captures / locals and reading every built-in) x 14 bodies (two with the captures declared inside `set .. to pattern` definitions, two capturing digits) with 0-2 captures whose values differ between matches x every text over {a,b,\\n} up to the length bound and over {0,7} up to length 3; " +
 			"expected replacement = concatenation of the items computed from the match record itself, and the matches must equal those of `find all` with the same body; non-trivial = distinct (list,body,text) triples with at least 2 matches",
 		Assume: []string{"the four transforms are fixed; the general evaluator is C11's subject", "Run(string) reports filename 'text'"},
 		Budget: map[string]int{"quick": 120, "thorough": 1200},
@@ -111,7 +119,72 @@ func init() {
 	})
 }
 
+// c05Redefinitions: a name defined again later in the source; every command uses the definition in force where it stands.
+func c05Redefinitions(c *Ctx) {
+	if !c.Level("redefinition") {
+		return
+	}
+	srcs := []struct {
+		src  string
+		want map[string]string // matched text -> replacement
+	}{
+		{"set t to transform return '<' + match + '>' end\nreplace all 'a' with t\nset t to transform return '[' + match + ']' end\nreplace all 'b' with t", map[string]string{"a": "<a>", "b": "[b]"}},
+		{"set t to transform return 'one' end\nreplace all 'a' with t t\nset t to transform return 'two' + matchNumber end\nreplace all 'b' with t '-' t\nreplace all 'a' with t", map[string]string{}},
+		{"set p to pattern 'a'\nset t to transform return 'P' end\nreplace all p with t\nset p to pattern 'b'\nreplace all p with t 'q'", map[string]string{"a": "P", "b": "Pq"}},
+	}
+	for _, sc := range srcs {
+		sc := sc
+		if !c.Unit(func() string { return sc.src }) {
+			continue
+		}
+		v, err, pi := compileSafe(sc.src)
+		if err != nil || pi != nil {
+			c.Violation("COMPILE redefinition", fmt.Sprintf("%q rejected: %v %v", sc.src, err, pi), map[string]any{"kind": "compile", "src": sc.src, "want": "accepted"})
+			continue
+		}
+		// expected: every command compiled alone with the definitions that precede it
+		lines := strings.Split(sc.src, "\n")
+		for _, t := range texts("ab", 4) {
+			c.Eval(1)
+			got, pi := runSafe(v, t)
+			var want []string
+			var defs []string
+			for _, ln := range lines {
+				if strings.HasPrefix(ln, "set ") {
+					defs = append(defs, ln)
+					continue
+				}
+				// later definitions of a name override earlier ones: keep only the last definition of each name
+				last := map[string]string{}
+				var order []string
+				for _, d := range defs {
+					n := strings.Fields(d)[1]
+					if _, ok := last[n]; !ok {
+						order = append(order, n)
+					}
+					last[n] = d
+				}
+				var pre []string
+				for _, n := range order {
+					pre = append(pre, last[n])
+				}
+				av, _, _ := compileSafe(strings.Join(append(pre, ln), "\n"))
+				ms, _ := runSafe(av, t)
+				want = append(want, matchRecords(ms)...)
+			}
+			if len(want) > 0 {
+				c.Nontrivial(1)
+			}
+			if pi != nil || strings.Join(matchRecords(got), "\n") != strings.Join(want, "\n") {
+				c.Violation("REDEFINITION", fmt.Sprintf("%q on %q: got %v (panic %v), each command with the definitions in force where it stands gives %v", sc.src, t, matchRecords(got), pi, want),
+					map[string]any{"kind": "records", "src": sc.src, "text": t, "want": want})
+			}
+		}
+	}
+}
+
 func runC05(c *Ctx) {
+	c05Redefinitions(c)
 	items := c05Items()
 	txts := texts("ab\n", c.Pick(3, 4))
 	// captures that look like numbers (a transform handles a capture as text: leading zeros stay, `+` concatenates)
